@@ -72,6 +72,10 @@ namespace Givaro
                   return r;
               }
 
+              // floating sources need not fit a 64-bit word: reduce them exactly as Integers
+              Element& init(Element& r, const double a) const { return init(r, Integer(a)); }
+              Element& init(Element& r, const float a) const { return init(r, Integer(static_cast<double>(a))); }
+
               Element& init(Element& r, const Integer& a) const
               {
                   Integer ip; Caster(ip, _p);
